@@ -458,6 +458,8 @@ pub enum HS {
     Ident,
     Zero,
     Random(caches::DefaultHashBuilder),
+    /// (calls so far, period): reseeds itself every `period` calls
+    Chaos(std::cell::Cell<u64>, u64),
 }
 
 pub enum HH {
@@ -476,6 +478,11 @@ impl BuildHasher for HS {
             HS::Ident => HH::Ident(0),
             HS::Zero => HH::Zero,
             HS::Random(r) => HH::Random(r.build_hasher()),
+            HS::Chaos(c, period) => {
+                let n = c.get();
+                c.set(n + 1);
+                HH::Fnv(0xcbf29ce484222325 ^ (n / (*period).max(1)).wrapping_mul(0x9E3779B97F4A7C15))
+            }
         }
     }
 }
